@@ -219,6 +219,21 @@ theorem write_read (fl : Rat → Rat) (hfl : StdModel fl) (s : C01.Src)
 example : toDataset flDouble (.ts []) = .error "IndexError" := by decide +kernel
 example : (toDataset flDouble (.cont ⟨100, 55, [7, 8, 9]⟩)).toOption.map (·.stop) = some (some 265) := by decide +kernel
 
+/-- what the cropped file's channel is read back as, in closed form -/
+theorem crop_export_read_eq (fl : Rat → Rat) (hfl : StdModel fl) (s : C01.Src)
+    (hdt : ∀ c, s = .cont c → 1 ≤ c.dt ∧ c.dt ≤ 2 ^ 50) (a b : Int) (hw : channelWritten s a b = true) :
+    cropExportRead fl s a b = .ok (some (reread (cropChannel s a b))) := by
+  have hlen : (cropChannel s a b).len ≠ 0 := by simpa [channelWritten] using hw
+  obtain ⟨d, hd1, hd2⟩ := write_read fl hfl (cropChannel s a b)
+    (fun c' hc' => by
+      obtain ⟨c, hc, e⟩ := crop_cont_dt s a b c' hc'
+      rw [e]; exact hdt c hc)
+    (fun l hl hnil => by
+      apply hlen; rw [hl, hnil]; rfl)
+  unfold cropExportRead
+  rw [if_pos hw, hd1]
+  simp only [hd2]; rfl
+
 /-- `save_as(crop_time_range=(a, b))` followed by `File(new)[name]`: the channel is in the new file iff it has a sample
     in the window, and what is read back from the written dataset (through the stored start, sample rate in double
     arithmetic, kind and numbers) has exactly the source samples with `a ≤ t < b`. -/
@@ -230,18 +245,7 @@ theorem cropped_export_reads_back (fl : Rat → Rat) (hfl : StdModel fl) (s : C0
   have hdt0 : ∀ c, s = .cont c → 0 < c.dt := fun c hc => by have := (hdt c hc).1; omega
   constructor
   · intro hw
-    have hlen : (cropChannel s a b).len ≠ 0 := by simpa [channelWritten] using hw
-    obtain ⟨d, hd1, hd2⟩ := write_read fl hfl (cropChannel s a b)
-      (fun c' hc' => by
-        obtain ⟨c, hc, e⟩ := crop_cont_dt s a b c' hc'
-        rw [e]; exact hdt c hc)
-      (fun l hl hnil => by
-        apply hlen; rw [hl, hnil]; rfl)
-    refine ⟨reread (cropChannel s a b), ?_, ?_⟩
-    · unfold cropExportRead
-      rw [if_pos hw, hd1]
-      simp only [hd2]; rfl
-    · rw [reread_samples, crop_is_slice s hdt0]
+    exact ⟨_, crop_export_read_eq fl hfl s hdt a b hw, by rw [reread_samples, crop_is_slice s hdt0]⟩
   · intro hw
     unfold cropExportRead
     rw [hw]; rfl
@@ -275,6 +279,89 @@ example : cropExportRead flDouble (.ts [(5, 0), (9, 1)]) 10 20 = .ok none := by 
 example : channelClass ⟨.str "Scan", none, none, none, .plain []⟩ = .error "RuntimeError" := by decide +kernel
 example : channelClass ⟨.absent, none, none, none, .plain []⟩ = .error "IndexError" := by decide +kernel
 
+
+/-! ## Composition: export, reopen, export again -/
+
+/-- `crop_crop` without its second hypothesis: cropping establishes it. -/
+theorem crop_crop_full (s : C01.Src) (hdt : ∀ c, s = .cont c → 0 < c.dt) (a b c d : Int) :
+    (cropChannel (cropChannel s a b) c d).samples = (cropChannel s (max a c) (min b d)).samples :=
+  crop_crop s hdt a b c d (fun c' hc' => by
+    obtain ⟨c0, h0, e⟩ := crop_cont_dt s a b c' hc'
+    rw [e]; exact hdt c0 h0)
+
+/-- The sample rate a reader reports (`1e9 / dt` of the period it read) is the stored one. -/
+theorem sample_rate_round_trip (fl : Rat → Rat) (hfl : StdModel fl) (dt : Int) (h1 : 1 ≤ dt) (h2 : dt ≤ 2 ^ 50) :
+    sampleRateQ fl (periodOfRateQ fl (sampleRateQ fl dt)) = sampleRateQ fl dt := by
+  rw [period_round_trip fl hfl dt h1 h2]
+
+/-- A format-v1 file (no `Kind` attributes) is read like a v2 file: dropping `Kind` from what `to_dataset` writes for a
+    continuous or time-series channel does not change what `from_dataset` returns. -/
+theorem read_v1_same (fl : Rat → Rat) (s : C01.Src) (d : Dset) (h : toDataset fl s = .ok d) (hs : ∀ t, s ≠ .tags t) :
+    fromDataset fl { d with kind := .absent } = fromDataset fl d := by
+  have := channel_class_v1 fl s d h hs
+  unfold fromDataset
+  rw [this]
+
+theorem reread_cont_dt (s : C01.Src) (c : C01.Cont) (h : reread s = .cont c) : s = .cont c := by
+  cases s with
+  | cont c0 => simpa [reread] using h
+  | ts l => simp [reread] at h
+  | tags t => simp [reread] at h
+
+/-- Export, reopen, export again with a second window, reopen: the channel holds exactly the source samples in the
+    intersection of the two windows, and is absent iff there is none (a channel absent after the first export stays
+    absent). -/
+theorem reexport_crop (fl : Rat → Rat) (hfl : StdModel fl) (s : C01.Src)
+    (hdt : ∀ c, s = .cont c → 1 ≤ c.dt ∧ c.dt ≤ 2 ^ 50) (a b c d : Int) (s1 : C01.Src)
+    (h1 : cropExportRead fl s a b = .ok (some s1)) :
+    (∃ s2, cropExportRead fl s1 c d = .ok (some s2) ∧
+        s2.samples = s.samples.filter (C01.inWin (max a c) (min b d)) ∧ s2.samples ≠ []) ∨
+    (cropExportRead fl s1 c d = .ok none ∧ s.samples.filter (C01.inWin (max a c) (min b d)) = []) := by
+  obtain ⟨hw, hnw⟩ := cropped_export_reads_back fl hfl s hdt a b
+  have hwt : channelWritten s a b = true := by
+    by_contra hf
+    have := hnw (by simpa using hf)
+    rw [this] at h1; cases h1
+  obtain ⟨s1', e1, hs1⟩ := hw hwt
+  rw [e1] at h1
+  simp only [Except.ok.injEq, Option.some.injEq] at h1
+  subst h1
+  -- the period of what was read back is the source's
+  have hdt1 : ∀ c1, s1' = .cont c1 → 1 ≤ c1.dt ∧ c1.dt ≤ 2 ^ 50 := by
+    intro c1 hc1
+    have := crop_export_read_eq fl hfl s hdt a b hwt
+    rw [e1] at this
+    simp only [Except.ok.injEq, Option.some.injEq] at this
+    rw [this] at hc1
+    have h2 := reread_cont_dt _ _ hc1
+    obtain ⟨c0, hc0, e⟩ := crop_cont_dt s a b c1 h2
+    rw [e]; exact hdt c0 hc0
+  obtain ⟨hw2, hnw2⟩ := cropped_export_reads_back fl hfl s1' hdt1 c d
+  have hfilt : s1'.samples.filter (C01.inWin c d) = s.samples.filter (C01.inWin (max a c) (min b d)) := by
+    rw [hs1, C01.filter_inWin_inWin]
+  have hdt1' : ∀ c1, s1' = .cont c1 → 0 < c1.dt := fun c1 hc1 => by have := (hdt1 c1 hc1).1; omega
+  by_cases hw2t : channelWritten s1' c d = true
+  · obtain ⟨s2, e2, hs2⟩ := hw2 hw2t
+    left
+    refine ⟨s2, e2, by rw [hs2, hfilt], ?_⟩
+    have hlen : (cropChannel s1' c d).len ≠ 0 := by simpa [channelWritten] using hw2t
+    rw [len_eq_samples_length, crop_is_slice s1' hdt1'] at hlen
+    rw [hs2]
+    intro hnil; apply hlen; rw [hnil]; rfl
+  · right
+    have hf : channelWritten s1' c d = false := by simpa using hw2t
+    refine ⟨hnw2 hf, ?_⟩
+    rw [← hfilt]
+    have := (crop_absent_iff_empty s1' hdt1' c d).mp hf
+    rw [List.filter_eq_nil_iff]
+    intro x hx hwin
+    exact this x hx (by simpa [C01.inWin] using hwin)
+
+/-- non-vacuity: 100…130 step 10; first export [105, 135) keeps 110, 120, 130; second [0, 125) keeps 110, 120 -/
+example : (cropExportRead flDouble (.cont ⟨100, 10, [0, 1, 2, 3]⟩) 105 135).toOption = some (some (.cont ⟨110, 10, [1, 2, 3]⟩)) := by
+  decide +kernel
+example : (cropExportRead flDouble (.cont ⟨110, 10, [1, 2, 3]⟩) 0 125).toOption = some (some (.cont ⟨110, 10, [1, 2]⟩)) := by
+  decide +kernel
 
 /-! ## Calibration of a force channel and of its slices (`from_field` → `Slice.calibration`) -/
 
